@@ -42,6 +42,12 @@ fn main() {
         mon::history::child(args[2].parse().unwrap_or(0));
         return;
     }
+    if property == "C14-vclock" {
+        // child of C14's clock-jump leg (runs under LD_PRELOAD=shim/libvclock.so with an offset file)
+        api::install_panic_hook();
+        mon::c14::clock_jump_child(args[2].parse().unwrap_or(1), &args[3]);
+        return;
+    }
     if property == "C09-vclock-history" {
         api::install_panic_hook();
         mon::c09::vclock_history_child(args[2].parse().expect("base timestamp"), &args[3]);
